@@ -4,10 +4,11 @@ CONSTANTS
   Msgs <- CatalogueMsgs
   MaxMsgs = 2
   LenMode = "bytes"
+  IdDecode = "strict"
   Variants <- VariantsDef
   ChunkMax = 1
   AllCuts = FALSE
 INIT Init
 NEXT SimNext
-INVARIANTS ReadIsPrefixOfSent Lossless MalformedGivesError NeverWaitsAfterEOF ChunkingIrrelevant PrintBehaviour
+INVARIANTS ReadIsPrefixOfSent Lossless MalformedGivesError NeverWaitsAfterEOF ChunkingIrrelevant IdsPreserved PrintBehaviour
 CHECK_DEADLOCK FALSE
